@@ -47,7 +47,7 @@ META = {
 
 THEOREMS = [
     "antex_fields_wf", "antex_lambdas_probe", "comments_ignored", "antex_file_roundtrip",
-    "gen_table_reads_like_std", "antex_file_roundtrip_gen",
+    "gen_table_reads_like_std", "antex_file_roundtrip_gen", "antenna_calibration_entry_point",
     "antex_file_roundtrip_with_comments", "frequency_section_spec", "frequency_pattern_shape", "grid_spec",
     "valid_from_until_spec", "calendar", "unique_keys", "duplicate_validity_refused", "pi_bracket",
     "c15_azi_accumulates_refuted", "c15_azi_strings_refuted", "c15_seconds_as_days_refuted",
@@ -257,6 +257,8 @@ def gen_file_model(rng, big_ok=True):
             a["type"], a["serial"] = typ, prn
             a["sat"] = f"{svn}{rng.randrange(10, 99)}"
             a["cospar"] = f"{rng.randrange(1990, 2025)}-{rng.randrange(1, 100):03d}{rng.choice('ABC')}"
+            if rng.random() < 0.15:
+                a["cospar"] = ""              # the COSPAR ID is optional
             # several validity periods per PRN: distinct VALID FROM; the record is optional (at most one block per PRN
             # without it: validity from the beginning)
             if no_from_ok and prn not in no_from and rng.random() < 0.5:
@@ -334,6 +336,43 @@ def gen_file_model(rng, big_ok=True):
     return ants
 
 
+def directed_models():
+    """Files that are read on every run, before the random stream (fixed content, independent of VERIF_SEED)."""
+    r = __import__("random").Random(1515)
+
+    def ant(typ, serial, sat, cospar, vfrom, until, codes, dazi10=0, nz=3):
+        n_az = 0 if dazi10 == 0 else 3600 // dazi10 + 1
+        fr = [{"code": c, "neu": [gen_offset(r) for _ in range(3)], "noazi": [gen_value(r) for _ in range(nz)],
+               "rows": [(fmt1(k * dazi10), [gen_value(r) for _ in range(nz)]) for k in range(n_az)]} for c in codes]
+        return {"type": typ, "serial": serial, "sat": sat, "cospar": cospar, "from": vfrom, "until": until,
+                "dazi": fmt1(dazi10), "zen1": "0.0", "zen2": fmt1((nz - 1) * 10), "dzen": "1.0", "nfreq": str(len(codes)),
+                "freqs": fr, "rms": []}
+
+    def d(y, m, dd, h=0, mi=0, s="0.0000000"):
+        return [str(y), str(m), str(dd), str(h), str(mi), s]
+
+    files = []
+    # several validity periods of one PRN, not in chronological order: a non-final period without VALID UNTIL, a
+    # period that overlaps its successor, a period without VALID FROM; a second PRN in between
+    files.append(("validity_periods", [
+        ant("BLOCK IIR-M", "G01", "G049", "2009-014A", d(2009, 3, 24), None, ["G01", "G02"]),
+        ant("BLOCK IIA", "G01", "G032", "1992-079A", d(1992, 11, 22), d(2009, 6, 30, 23, 59, "59.9999999"), ["G01", "G02"]),
+        ant("GLONASS-M", "R01", "R730", "2009-070A", d(2009, 12, 14), None, ["R01"]),
+        ant("BLOCK IIF", "G01", "G063", "2011-036A", d(2011, 7, 16), d(2040, 1, 1), ["G01", "G02", "G05"], dazi10=900),
+        ant("BLOCK I", "G01", "G001", "1978-020A", None, None, ["G01"]),
+    ]))
+    # satellite sections whose optional COSPAR ID is blank - two of one block type - next to complete ones and a
+    # receiver antenna of a type that looks like a block type
+    files.append(("blank_cospar_id", [
+        ant("BEIDOU-3M-CAST", "C19", "C201", "", d(2017, 11, 5), None, ["C02", "C07"]),
+        ant("BEIDOU-3M-CAST", "C20", "C202", "", d(2017, 11, 5), d(2030, 1, 1), ["C02", "C07"]),
+        ant("BEIDOU-3M-CAST", "C21", "C206", "2018-018A", d(2018, 2, 12), None, ["C02"]),
+        ant("BEIDOU-3M-CAST", "C19", "C215", "", d(2025, 1, 1), None, ["C02"], dazi10=1800),
+        ant("TRM59800.00     NONE", "", "", "", None, None, ["G01", "C02"], dazi10=900),
+    ]))
+    return files
+
+
 def lab(body, label, pad):
     line = body.ljust(60)[:60] + label
     return line.ljust(80) if pad else line
@@ -407,13 +446,18 @@ def us_of(dt):
     return (d.days * 86400 + d.seconds) * 1000000 + d.microseconds
 
 
-def observe(path):
-    """(obs term, summary for replays, now bracket)"""
+def observe(path, entry="parser"):
+    """(obs term, summary for replays, now bracket).  entry: "parser" = parsers.parse_file("antex", path).as_dict(),
+    "calibration" = the other way into the same data, midgard.gnss.antenna_calibration.AntennaCalibration(path).data"""
     import numpy as np
     from midgard import parsers
     t_lo = us_of(datetime.now())
     try:
-        d = parsers.parse_file("antex", path).as_dict()
+        if entry == "calibration":
+            from midgard.gnss.antenna_calibration import AntennaCalibration
+            d = AntennaCalibration(file_path=path).data
+        else:
+            d = parsers.parse_file("antex", path).as_dict()
     except Exception as e:
         t_hi = us_of(datetime.now())
         return f"(ObsErr {emit.s(type(e).__name__)})", {"exception": f"{type(e).__name__}: {e}"}, (t_lo, t_hi)
@@ -501,7 +545,13 @@ def file_case(ctx, lines, name):
         f.write("\n".join(lines) + "\n")
     obs, summary, (lo, hi) = observe(path)
     term = emit.pair(lines_term(lines), emit.pair(emit.zs(lo), emit.zs(hi)), obs)
-    return term, summary
+    # second entry point: AntennaCalibration(path).data must be the same calibrations.  Its observation is shipped to
+    # Coq as a case of its own unless it is literally the same term (then the verdict is the same by construction).
+    obs2, summary2, (lo2, hi2) = observe(path, entry="calibration")
+    extra = None
+    if obs2 != obs:
+        extra = (emit.pair(lines_term(lines), emit.pair(emit.zs(lo2), emit.zs(hi2)), obs2), summary2)
+    return term, summary, extra
 
 
 # ============================================================================= the run
@@ -516,6 +566,17 @@ def run(ctx):
     n_files = 100 if ctx.quick() else 600
 
     cases, truths, metas = [], [], []
+    extras = []
+
+    def second_entry(extra, rep):
+        if extra is not None:
+            extras.append((extra[0], dict(rep, kind=rep["kind"] + ":antenna_calibration", observed=extra[1],
+                                          how="write the lines to a file; midgard.gnss.antenna_calibration."
+                                              "AntennaCalibration(file_path=path).data")))
+            ctx.count("entry:antenna_calibration_differs_from_parser")
+        else:
+            ctx.count("entry:antenna_calibration_same_term")
+
     # the repository's own example first
     ex = os.path.join(core.REPO, "tests", "parsers", "example_files", "antex")
     if os.path.exists(ex):
@@ -523,22 +584,35 @@ def run(ctx):
             lines = f.read().split("\n")
         if lines and lines[-1] == "":
             lines.pop()
-        term, summary = file_case(ctx, lines, "example.atx")
+        term, summary, extra0 = file_case(ctx, lines, "example.atx")
         cases.append(term)
         truths.append(None)
         metas.append(dict(kind="example_file", file="tests/parsers/example_files/antex", observed=summary))
+        second_entry(extra0, metas[-1])
         ctx.count("file:example")
         ctx.case(("example",), nontrivial=True, sample=dict(kind="example_file", observed=summary))
+    import random as _random
+    for name, ants in directed_models():
+        lines = render(_random.Random(7), ants, decor=False)
+        term, summary, extra = file_case(ctx, lines, f"directed_{name}.atx")
+        cases.append(term)
+        truths.append(emit.pair(model_term(ants), lines_term(lines)))
+        metas.append(dict(kind="directed_file", name=name, lines=lines, observed=summary,
+                          how="write the lines to a file; midgard.parsers.parse_file('antex', path).as_dict()"))
+        second_entry(extra, metas[-1])
+        ctx.count("file:directed:" + name)
+        ctx.case(("directed", name), nontrivial=True)
     for i in range(n_files):
         ants = gen_file_model(rng)
         rms = any(a["rms"] for a in ants)
         decor = rng.random() < 0.85
         lines = render(rng, ants, decor=decor)
-        term, summary = file_case(ctx, lines, f"f{i:05d}.atx")
+        term, summary, extra = file_case(ctx, lines, f"f{i:05d}.atx")
         cases.append(term)
         truths.append(emit.pair(model_term(ants), lines_term(lines)))
         metas.append(dict(kind="generated_file", index=i, lines=lines, observed=summary, rms_sections=rms,
                           how="write the lines to a file; midgard.parsers.parse_file('antex', path).as_dict()"))
+        second_entry(extra, metas[-1])
         nf = max(len(a["freqs"]) for a in ants)
         ctx.count(f"antennas:{len(ants)}")
         ctx.count(f"max_freqs:{nf}")
@@ -556,16 +630,22 @@ def run(ctx):
                  sample=dict(kind="generated_file", antennas=[(a["type"], a["serial"], a["dazi"], a["zen1"], a["zen2"], a["dzen"],
                                                                [f["code"] for f in a["freqs"]]) for a in ants]) if i < 3 else None)
 
+    for term, rep in extras:
+        cases.append(term)
+        truths.append(None)
+        metas.append(rep)
+        ctx.case(("calibration", rep.get("name"), rep.get("index")), nontrivial=True)
     size = 3 if ctx.quick() else 8
     vs = ctx.coq_cases(emit.shard_terms("check_file", cases, size), REQ, timeout=1500)
     flat = emit.flatten_verdicts(vs, len(cases))
+    errs_file = list(ctx.last_coq_errors)
     tcases = [t for t in truths if t is not None]
     tmeta = [m for t, m in zip(truths, metas) if t is not None]
     vt = ctx.coq_cases(emit.shard_terms("check_truth", tcases, size), REQ, timeout=1500)
     flat_t = emit.flatten_verdicts(vt, len(tcases))
 
     if flat is None or flat_t is None:
-        ctx.violation({"broken": "correspondence shards did not evaluate in Coq", "errors": ctx.last_coq_errors[:2]},
+        ctx.violation({"broken": "correspondence shards did not evaluate in Coq", "errors": (errs_file + list(ctx.last_coq_errors))[:3]},
                       what="correspondence (model evaluation) failed", found=False)
     else:
         for v, rep in zip(flat, metas):
